@@ -38,7 +38,14 @@ Verdict ==
 \* isinstance(instance of class c, class b) = b is in the MRO of c
 IsInst(c, b) == b \in ElemsOf(mros[c])
 IsInstPart(c, b) == IF b = c THEN "IsInstance|class=own" ELSE IF IsInst(c, b) THEN "IsInstance|class=ancestor" ELSE "IsInstance|class=unrelated"
+\* calling a class runs the first __init__ along ITS linearisation (an implicit attribute read on the class): with
+\* __init__ defined by exactly the classes of one parity (a plain function recording its class), constructing class c
+\* runs the __init__ of the first class of that parity in the MRO of c - 0 if there is none
+FirstOfParity(c, par) ==
+  LET idx == { i \in 1..Len(mros[c]) : mros[c][i] # 0 /\ mros[c][i] % 2 = par } IN
+  IF ~oks[c] \/ idx = {} THEN 0 ELSE mros[c][CHOOSE i \in idx : \A j \in idx : i <= j]
 Record == [bases |-> bases, ok |-> oks, mro |-> mros,
+           ctor |-> [k \in 1..2 |-> [c \in 1..Len(bases) |-> FirstOfParity(c, k % 2)]],     \* ctor[1]: odd classes define __init__, ctor[2]: even ones
            isinst |-> [c \in 1..Len(bases) |-> [b \in 1..Len(bases) |->
                          IF oks[c] /\ oks[b] THEN [r |-> IsInst(c, b), part |-> IsInstPart(c, b)]
                          ELSE [r |-> FALSE, part |-> "IsInstance|class does not exist"]]]]
